@@ -8,7 +8,11 @@ EXTRA_MODULES = [("SLV.Props.Guards", "C02_")]
 RULE = ("fuse / fuse_os / fuse_ss for the 4 operators: guard lattice (vacuous, dogmatic, tolerance-edge vacuous u=1-k*eps/2, "
         "tolerance-edge dogmatic, interior; base rates different / equal / within a few ulps / one shared object), dyadic grids "
         "(exhaustive den 4 for n=2,3 in thorough; random up to 1/64), uncertainty sweeps 1e-300..1e-3 and 1-1e-3..1-2^-52, "
-        "arbitrary floats; n=1..4; families A/M/D/N, styles o/r/asg; f32+f64. non-trivial = value returned, not both operands vacuous")
+        "arbitrary floats; n=1..4; families A/M/D/N, styles o/r/asg; f32+f64. The same guard lattice and dyadic operands over "
+        "2-D / 3-D domains: families M2/M3 (MArr2/MArr3), D2/D3 and N2/N3 (MArrD2/MArrD3, usize / newtype indices), shapes 1x2, 2x1, "
+        "2x2, 1x3, 3x1, 2x3, 3x2, 1x2x2, 2x2x1, 2x1x2, 2x2x2, 1x2x3, 1x3x2, 2x1x3, 3x1x2, 2x2x3, styles o/r/asg/shared base rate; "
+        "operands built with the containers' `new`, results read cell by cell through the index operator and compared (==) with an "
+        "independently built container. non-trivial = value returned, not both operands vacuous")
 EXHAUSTIVE = {}
 LEVEL_TEXT = ("Theorems over the exact model for every n and rational well-formed operands: fusion is total, the fused simplex is "
               "well-formed, every fused base-rate entry lies between the operands' entries and the base rate sums to 1 (up to the "
@@ -37,12 +41,33 @@ def fuse_case(rng, fmt, n=None, op=None):
     return G.line("fuse", fmt, var, [n, op, 0], b1 + [u1] + a1 + b2 + [u2] + a2)
 
 
+def fuse_case_nd(rng, fmt):
+    """fusion over a 2-D / 3-D domain: guard-lattice or dyadic operands, every passing style"""
+    fam, sh, n = G.nd_family(rng)
+    op = rng.randint(0, 3)
+    if rng.random() < 0.6:
+        b1, u1, _ = G.guard_operand(rng, fmt, n)
+        b2, u2, _ = G.guard_operand(rng, fmt, n)
+        a1, a2, _ = G.base_rate_pair(rng, fmt, n)
+        w1, w2 = b1 + [u1] + a1, b2 + [u2] + a2
+    else:
+        den = rng.choice([4, 8, 16, 64])
+        w1 = G.rand_opinion(rng, n, den, G.rand_kind(rng))
+        w2 = G.rand_opinion(rng, n, den, G.rand_kind(rng))
+    if rng.random() < 0.15:
+        return G.line("fuse", fmt, fam + ".r", [n, op, 1] + sh, w1 + w2[:n + 1] + w1[n + 1:])
+    var = fam + rng.choice([".o", ".r", ".o.asg", ".r.asg"])
+    return G.line("fuse", fmt, var, [n, op, 0] + sh, w1 + w2)
+
+
 def cases(rng, tier):
     out = []
     for fmt in ("f64", "f32"):
         N = 1500 if tier == "quick" else 40000
         for _ in range(N):
             out.append(fuse_case(rng, fmt))
+        for _ in range(N // 3):
+            out.append(fuse_case_nd(rng, fmt))
         # dyadic grids
         if tier == "thorough":
             for n in (2, 3):
